@@ -9,6 +9,7 @@
   report (empty = none).  Core Lean only (linked into the driver).
 -/
 import Gotree.Model.C11
+import Gotree.Model.C11HashMap
 import Gotree.Spec.Splits
 import Gotree.Model.Dump
 import Gotree.Model.C10
@@ -304,5 +305,50 @@ def runWhy (r : Run) : String :=
   else if r.badClasses.isEmpty && r.outcome != "ok" then "failed on a stream without erroneous tree: " ++ r.outcome
   else if r.badClasses.isEmpty then "result differs from the single-thread run"
   else "an erroneous tree did not make the call fail with an error: " ++ r.outcome
+
+/-- the progress counter of the caller's `Supporter` (supporter.go, incremented by every FBP worker and by the
+    TBE loop) after a call on a stream without erroneous tree: every tree was counted exactly once, whatever
+    the thread count and the schedule (`progress < 0`: not observed) -/
+def progressOK (r : Run) (progress : Int) : Bool :=
+  progress < 0 || r.cancelled || !r.badClasses.isEmpty || r.outcome != "ok" || progress == (r.items.length : Int)
+
+/-! ### `hashmap.HashMap`: what a history of calls on ONE map must return (no model involved)
+
+  The reference is a plain association list: a `Value` returns what the last `PutValue` of an equal key
+  stored (absent before the first one), `Keys` / `KeyValues` return every stored key (pair) exactly once
+  and no nil cell, in any order. -/
+
+namespace HM
+
+def refPut (ref : List (Nat × Int)) (k : Nat) (v : Int) : List (Nat × Int) :=
+  if ref.any (·.1 == k) then ref.map (fun kv => if kv.1 == k then (kv.1, v) else kv) else ref ++ [(k, v)]
+
+def refGet (ref : List (Nat × Int)) (k : Nat) : Option Int := (ref.find? (·.1 == k)).map (·.2)
+
+/-- `l` lists every element of `want` exactly once (`want` has no duplicates), without nil cell -/
+def sameSet {α : Type} [BEq α] (l : List (Option α)) (want : List α) : Bool :=
+  l.length == want.length && want.all (fun x => l.contains (some x))
+
+def historyOK : List (Nat × Int) → List (Op Nat Int) → List (Out Nat Int) → Bool
+  | _, [], [] => true
+  | ref, .put k v :: ops, .unit :: outs => historyOK (refPut ref k v) ops outs
+  | ref, .get k :: ops, .val x :: outs => x == refGet ref k && historyOK ref ops outs
+  | ref, .keys :: ops, .keys l :: outs => sameSet l (ref.map (·.1)) && historyOK ref ops outs
+  | ref, .keyValues :: ops, .kvs l :: outs => sameSet l ref && historyOK ref ops outs
+  | _, _, _ => false
+
+/-- position of the first call whose answer is wrong (for the detail string) -/
+def firstBad : Nat → List (Nat × Int) → List (Op Nat Int) → List (Out Nat Int) → Nat
+  | i, ref, .put k v :: ops, .unit :: outs => firstBad (i + 1) (refPut ref k v) ops outs
+  | i, ref, .get k :: ops, .val x :: outs => if x == refGet ref k then firstBad (i + 1) ref ops outs else i
+  | i, ref, .keys :: ops, .keys l :: outs => if sameSet l (ref.map (·.1)) then firstBad (i + 1) ref ops outs else i
+  | i, ref, .keyValues :: ops, .kvs l :: outs => if sameSet l ref then firstBad (i + 1) ref ops outs else i
+  | i, _, _, _ => i
+
+/-- `HashCode` of the harness' key type `intKey{k, mod}` -/
+def intKeyHash (mod : Nat) (k : Nat) : Nat :=
+  ((if mod > 0 then k % mod else k) * 0x9E3779B97F4A7C15) % 18446744073709551616
+
+end HM
 
 end Gotree.C11
